@@ -123,6 +123,12 @@ class VIter(V):
 
 
 @dataclass
+class VMeta(V):
+    """a metaclass object (the result of type(cls))"""
+    term: z3.ExprRef
+
+
+@dataclass
 class VAttrs(V):
     """an `attributes=` argument: None or (hopefully) a dict of name -> value"""
     term: z3.ExprRef
